@@ -607,6 +607,11 @@ func (uconn *UConn) MarshalClientHello() error {
 // ECH extension present.
 func (uconn *UConn) MarshalClientHelloNoECH() error {
 	hello := uconn.HandshakeState.Hello
+	// The length prefixes below are 8 and 16 bits wide: refuse what they cannot hold
+	// instead of emitting a ClientHello with truncated length fields.
+	if len(hello.SessionId) > 0xff || len(hello.CipherSuites) > 0x7fff || len(hello.CompressionMethods) > 0xff {
+		return errors.New("utls: session id, cipher suites or compression methods too long to encode")
+	}
 	headerLength := 2 + 32 + 1 + len(hello.SessionId) +
 		2 + len(hello.CipherSuites)*2 +
 		1 + len(hello.CompressionMethods)
@@ -631,6 +636,10 @@ func (uconn *UConn) MarshalClientHelloNoECH() error {
 		// determine padding extension presence and length
 		paddingExt.Update(headerLength + 4 + extensionsLen + 2)
 		extensionsLen += paddingExt.Len()
+	}
+
+	if extensionsLen > 0xffff {
+		return errors.New("utls: extensions too long to encode: " + strconv.Itoa(extensionsLen) + " bytes")
 	}
 
 	helloLen := headerLength
